@@ -4,6 +4,8 @@ from __future__ import annotations
 import csv
 import os
 
+import itertools
+
 import z3
 
 from vf import kit, core, loops, loader
@@ -66,13 +68,14 @@ def run(chk):
     chk.trust('while-loop cutting with early return (vf/loops.py); z3 with one quantified invariant (no earlier line matched)')
     chk.trust('scipp model for the 1/v law; float(str) parses the decimal literal; re.match semantics for (?:\\d+)?([a-zA-Z]+)')
     mod = kit.load(MOD, real_init=('atoms',), preload=())
-    find_line(chk, mod)
-    parse_line(chk, mod)
-    assemble_scalar(chk, mod)
-    atom_for_isotope(chk, mod)
-    loaders(chk, mod)
+    chk.section('find_line', find_line, mod)
+    chk.section('parse_line', parse_line, mod)
+    chk.section('assemble_scalar', assemble_scalar, mod)
+    chk.section('atom_for_isotope', atom_for_isotope, mod)
+    chk.section('loaders', loaders, mod)
     tables(chk)
-    attenuation(chk)
+    chk.section('attenuation', attenuation)
+    attenuation_bounded(chk)
 
 
 # ---- _find_line_with_isotope: first exact match, else None -- for an arbitrary file ----------------------------------------
@@ -436,24 +439,80 @@ def attenuation(chk):
     un = symbolic_unit('k_n', NAMED['m'] ** -3)
     ua = symbolic_unit('k_sa', NAMED['m'] ** 2)
     us = symbolic_unit('k_ss', NAMED['m'] ** 2)
-    for wdt in (F64,):
+    from vf.kit import F32, I32, I64
+    # wavelengths in any unit (symbolic scale) and any numeric dtype, scalar or array-valued
+    for wdt, dims in itertools.product((F64, F32, I64, I32), ((), ('wavelength',))):
+        tag = f'wavelength:{wdt}' + ('; 1-d' if dims else '')
+
         class SP:
             total_scattering_cross_section = arg('sigma_s', 'area', unit=us)
             absorption_cross_section = arg('sigma_a', 'area', unit=ua)
 
         def mk():
-            return mm.Material(scattering_params=SP, effective_sample_number_density=arg('n', 'numdens', unit=un)), arg('lam', 'length', dtype=wdt)
+            return mm.Material(scattering_params=SP, effective_sample_number_density=arg('n', 'numdens', unit=un)), arg('lam', 'length', dtype=wdt, dims=dims)
         paths = chk.explore(lambda: mk()[0].attenuation_coefficient(mk()[1]), base=[], catch=(Exception,))
         for p in paths:
             ok = p.kind == 'return'
-            chk.decided(f'{pre}/no-raise', ok, detail=repr(p.value)[:300])
+            chk.decided(f'{pre}/no-raise[{tag}]', ok, detail=repr(p.value)[:300])
             if ok:
                 m, lam = mk()
                 ref = core.tz(1.7982) * NAMED['angstrom'].term()
-                chk.prove(f'{pre}/n*(sigma_s+sigma_a*lambda/1.7982A)', hyps_of(p),
-                          p.value.si == m.effective_sample_number_density.si * (SP.total_scattering_cross_section.si + SP.absorption_cross_section.si * lam.si / ref), timeout=60)
-                chk.decided(f'{pre}/inverse-length', p.value.unit.dims == {'m': Fr(-1)}, detail=str(p.value.unit))
-                chk.decided(f'{pre}/frame', not kit.frame_violations(p), detail=str(kit.frame_violations(p)))
+                chk.prove(f'{pre}/n*(sigma_s+sigma_a*lambda/1.7982A)[{tag}]', hyps_of(p),
+                          p.value.si == m.effective_sample_number_density.si * (SP.total_scattering_cross_section.si + SP.absorption_cross_section.si * lam.si / ref), timeout=60,
+                          meta={'attenuation': True})
+                chk.decided(f'{pre}/inverse-length[{tag}]', p.value.unit.dims == {'m': Fr(-1)}, detail=str(p.value.unit))
+                chk.decided(f'{pre}/frame[{tag}]', not kit.frame_violations(p), detail=str(kit.frame_violations(p)))
+
+
+def attenuation_failures(limit=3):
+    """[B] real Material.attenuation_coefficient vs n (sigma_s + sigma_a lambda / 1.7982 A): wavelengths in m / nm / angstrom / pm,
+    dtypes float64 / float32 / int64 / int32, scalar and array-valued, densities in 1/angstrom^3 and 1/m^3, three nuclides"""
+    import numpy as np
+    import scipp as sc
+    from vf.realrun import real_module
+    mm = real_module('absorption.material')
+    at = real_module('atoms')
+    fails, n = [], 0
+    wl_values = {'angstrom': [1, 2, 5], 'nm': [1, 2], 'pm': [50, 180, 400], 'm': [1e-10, 4e-10]}
+    for iso in ('V', 'Cd', '3He'):
+        sp = at.ScatteringParams.for_isotope(iso)
+        ss = sp.total_scattering_cross_section.to(unit='m**2').value
+        sa = sp.absorption_cross_section.to(unit='m**2').value
+        for dens, dunit, dsi in ((0.07, '1/angstrom**3', 0.07e30), (2.5e28, '1/m**3', 2.5e28)):
+            m = mm.Material(scattering_params=sp, effective_sample_number_density=sc.scalar(dens, unit=dunit))
+            # array-valued wavelengths: scipp refuses to broadcast the tabulated uncertainties (VariancesError, by design), so the
+            # array cases use the tabulated values without their uncertainties
+            import dataclasses
+            sp0 = dataclasses.replace(sp, total_scattering_cross_section=sc.values(sp.total_scattering_cross_section),
+                                      absorption_cross_section=sc.values(sp.absorption_cross_section))
+            m0 = mm.Material(scattering_params=sp0, effective_sample_number_density=sc.scalar(dens, unit=dunit))
+            for unit, vals in wl_values.items():
+                scale = sc.scalar(1.0, unit=unit).to(unit='m').value
+                for dt in ('float64', 'float32', 'int64', 'int32'):
+                    if dt.startswith('int') and unit == 'm':
+                        continue
+                    for arr in (False, True):
+                        n += 1
+                        v = np.array(vals, dtype=dt)
+                        wl = sc.array(dims=['wavelength'], values=v, unit=unit) if arr else sc.scalar(v[0], unit=unit)
+                        want = dsi * (ss + sa * (np.asarray(wl.values, dtype='float64') * scale) / 1.7982e-10)
+                        try:
+                            got = (m0 if arr else m).attenuation_coefficient(wl).to(unit='1/m', dtype='float64').values
+                        except Exception as e:  # noqa: BLE001
+                            got, err = None, f'{type(e).__name__}: {e}'
+                        tol = 1e-6 if dt == 'float32' else 1e-12
+                        if got is None or not np.allclose(got, want, rtol=tol, atol=0):
+                            if len(fails) < limit:
+                                fails.append({'id': f'{iso}-{unit}-{dt}-{"array" if arr else "scalar"}-{dunit}', 'isotope': iso, 'wavelength': f'{list(np.atleast_1d(wl.values))} {unit} {dt}',
+                                              'density': f'{dens} {dunit}', 'got_per_m': None if got is None else [float(x) for x in np.atleast_1d(got)],
+                                              'expected_per_m': [float(x) for x in np.atleast_1d(want)], 'error': None if got is not None else err})
+    return n, fails
+
+
+def attenuation_bounded(chk):
+    n, fails = attenuation_failures()
+    chk.bounded_check('attenuation-grid', 'real Material.attenuation_coefficient vs the 1/v formula', f'{n} combinations of 3 nuclides x 2 density units x 4 wavelength '
+                      'units x 4 dtypes x scalar/array', n, fails)
 
 
 class _Rec:
@@ -480,6 +539,9 @@ def replay(rec):
         if r.failed:
             return {'reproduced': True, 'native_table_enumeration': r.failed[:3]}
     if 'attenuation' in name:
+        n, fails = attenuation_failures()
+        if fails:
+            return {'reproduced': True, 'cases': fails[:2]}
         import scipp as sc
         from vf.realrun import real_module
         mm = real_module('absorption.material')
